@@ -54,12 +54,13 @@ type Engine struct {
 	base         map[int]Value
 	baseNext     int
 
-	redirect   map[string]*ssa.Function
-	harnessFns map[*ssa.Function]bool
-	intrinsic  map[*ssa.Function]bool
-	harnesses  map[string]*HarnessSpec
-	overlay    map[string][]byte
-	rtFiles    map[string]bool
+	redirect       map[string]*ssa.Function
+	scopedRedirect map[string]map[string]*ssa.Function
+	harnessFns     map[*ssa.Function]bool
+	intrinsic      map[*ssa.Function]bool
+	harnesses      map[string]*HarnessSpec
+	overlay        map[string][]byte
+	rtFiles        map[string]bool
 
 	methodCache sync.Map
 	implCache   sync.Map
@@ -76,6 +77,8 @@ type Engine struct {
 	mapOrderReverse bool
 	initAllowed     func(path string) bool
 	witnessPerJob   int
+	baseFS          []fsEntry
+	stdHandles      []StrV
 	coverDecl       map[string][]string
 	boundsDoc       map[string]string
 	assumeDoc       map[string][]string
@@ -109,7 +112,7 @@ func loadEngine(repo, verifDir string, tier int, verbose bool) *Engine {
 	t0 := time.Now()
 	e := &Engine{repo: repo, verifDir: verifDir, tier: tier, verbose: verbose,
 		globals: map[*ssa.Global]int{}, globalName: map[int]string{}, uninitGlobal: map[int]bool{},
-		base: map[int]Value{}, redirect: map[string]*ssa.Function{}, harnessFns: map[*ssa.Function]bool{},
+		base: map[int]Value{}, redirect: map[string]*ssa.Function{}, scopedRedirect: map[string]map[string]*ssa.Function{}, harnessFns: map[*ssa.Function]bool{},
 		intrinsic: map[*ssa.Function]bool{}, harnesses: map[string]*HarnessSpec{}, overlay: map[string][]byte{},
 		rtFiles: map[string]bool{}, coverDecl: map[string][]string{}, boundsDoc: map[string]string{}, assumeDoc: map[string][]string{}, ssaPkgs: map[string]*ssa.Package{}, siteIfs: map[*ssa.If]string{}, siteFns: map[*ssa.Function]string{}, siteDesc: map[string]*KnownFinding{}}
 
@@ -236,6 +239,16 @@ func loadEngine(repo, verifDir string, tier int, verbose bool) *Engine {
 				}
 				if fd.Doc == nil {
 					continue
+				}
+				for _, c := range fd.Doc.List {
+					// models declared in a harness file are scoped to the harnesses of that package
+					if strings.HasPrefix(c.Text, "//verif:model ") {
+						target := strings.TrimSpace(strings.TrimPrefix(c.Text, "//verif:model "))
+						if e.scopedRedirect[pk.PkgPath] == nil {
+							e.scopedRedirect[pk.PkgPath] = map[string]*ssa.Function{}
+						}
+						e.scopedRedirect[pk.PkgPath][target] = fn
+					}
 				}
 				for _, c := range fd.Doc.List {
 					if !strings.HasPrefix(c.Text, "//verif:harness") {
@@ -429,6 +442,23 @@ func (e *Engine) runInits(solverCmd []string) {
 		}
 		st = outs[0].st
 	}
+	// model handles for the standard streams (cmd/gts harnesses)
+	if osp := e.ssaPkgs["os"]; osp != nil {
+		for _, nm := range []string{"Stdin", "Stdout", "Stderr"} {
+			g, ok := osp.Members[nm].(*ssa.Global)
+			if !ok {
+				continue
+			}
+			name := StrV{s: "/dev/" + strings.ToLower(nm)}
+			obj := st.alloc(&ArrV{})
+			st.fsPut(-1, name, obj)
+			h := w.newHandle(st, name, obj)
+			st.set(e.globals[g], h)
+			delete(e.uninitGlobal, e.globals[g])
+			e.stdHandles = append(e.stdHandles, name)
+		}
+	}
+	e.baseFS = st.fs
 	for id, v := range st.heap {
 		e.base[id] = v
 	}
